@@ -21,6 +21,11 @@ func c03Specs() []*bfsSpec {
 			Setup:    []string{"gate:0"},
 			Alphabet: []string{"evict", "complete:1", "complete:0", "stuff:0", "pstep:0:2", "ungate:0", "gate:0", "close:1", "adv:2"},
 			Depth: 5, DepthT: 7},
+		// least-recently-accessed first, with the accesses made through the exported
+		// Torrent.Request (what Readers call), in different seconds of the clock
+		{Name: "c03-lru", Cfg: worldCfg{Geom: "gtail", Peers: []peerCfg{dh}, Have: []int{0, 1, 2}, AutoDrain: true},
+			Alphabet: []string{"treq:0:1", "treq:1:1", "treq:2:0", "adv:2", "adv:61", "evictone", "complete:0", "complete:1"},
+			Depth: 6, DepthT: 8},
 	}
 }
 
